@@ -93,6 +93,41 @@ func BasePrograms() []*Program {
 			},
 		})
 	}
+	// A6: the flush queue is full - one flush wedged in the store, one waiting in the queue - when a third request is due:
+	// a batch that reaches the row trigger, or a Flush that finds rows buffered. Whoever is answered, the earlier ones come first.
+	for _, kind := range []string{"create", "close", "update"} {
+		ps = append(ps, &Program{
+			Name:   "A6-queue-full-trigger-" + kind,
+			Cfg:    Cfg{IBS: 4, MBRows: 1},
+			Calls:  []Call{rowsCall(1, "buf", 1, 1), rowsCall(2, "buf", 1, 1), rowsCall(3, "buf", 1, 1), rowsCall(4, "unbuf", 1, 1)},
+			Faults: []Fault{{Kind: kind, Nth: 1, Mode: "wedge"}},
+			Phases: [][]Op{
+				{{Op: "start"}},
+				{calls("c1", 1)},
+				{calls("c1", 2)},
+				{calls("c1", 3)},
+				{calls("c2", 4)},
+				{{Op: "unwedge", Mode: kind + "#1"}},
+				{{Op: "stop", Mode: "nodeadline"}},
+			},
+		})
+		ps = append(ps, &Program{
+			Name: "A6-queue-full-flush-" + kind,
+			Cfg:  Cfg{IBS: 4, MBRows: 2},
+			Calls: []Call{rowsCall(1, "buf", 1, 1), rowsCall(2, "buf", 1, 1), rowsCall(3, "buf", 1, 1), rowsCall(4, "buf", 1, 1),
+				rowsCall(5, "buf", 1, 1), {ID: 6, Kind: "force", Chan: "buf"}},
+			Faults: []Fault{{Kind: kind, Nth: 1, Mode: "wedge"}},
+			Phases: [][]Op{
+				{{Op: "start"}},
+				{calls("c1", 1, 2)},
+				{calls("c1", 3, 4)},
+				{calls("c1", 5)},
+				{calls("c2", 6)},
+				{{Op: "unwedge", Mode: kind + "#1"}},
+				{{Op: "stop", Mode: "nodeadline"}},
+			},
+		})
+	}
 	// E: done channels whose receiver shows up late (the caller "keeps receiving", just not yet)
 	ps = append(ps, &Program{
 		Name: "E-late-receivers",
@@ -326,6 +361,31 @@ func FaultPrograms(pairs bool) []*Program {
 							[]Fault{f, {Kind: k2, Nth: 1, Mode: "err"}}))
 					}
 				}
+			}
+		}
+	}
+	// the same failures under flushes the partition-level limits start (a batch that fills a row group, a batch whose
+	// partitions reach the limit one after the other): whatever is cut when, an answer tells the truth about its whole batch
+	for _, lim := range []struct {
+		tag string
+		cfg Cfg
+	}{{"mrgrows", Cfg{IBS: 4, MBRows: 1000, MRGRows: 2, Partitions: true}}, {"mrgbytes", Cfg{IBS: 4, MBRows: 1000, MRGBytes: 150, Partitions: true}}} {
+		for _, k := range []string{"create", "write", "close", "update"} {
+			for n := 1; n <= 3; n++ {
+				ps = append(ps, &Program{
+					Name: fmt.Sprintf("F2-%s-%s%d", lim.tag, k, n),
+					Cfg:  lim.cfg,
+					Calls: []Call{rowsCall(1, "buf", 3, 1), rowsCall(2, "buf", 1, 1), rowsCall(3, "unbuf", 4, 2), rowsCall(4, "buf", 1, 2),
+						{ID: 5, Kind: "force", Chan: "buf"}},
+					Faults: []Fault{{Kind: k, Nth: n, Mode: "err"}},
+					Phases: [][]Op{
+						{{Op: "start"}},
+						{calls("c1", 1)},
+						{calls("c1", 2, 3)},
+						{calls("c1", 4, 5)},
+						{{Op: "stop", Mode: "nodeadline"}},
+					},
+				})
 			}
 		}
 	}
